@@ -17,12 +17,16 @@ def main():
         rc = core.run_check(a.prop, a.tier, seed, a.replay)
     except core.Infra as e:
         print(f"INFRASTRUCTURE FAILURE ({a.prop}): {e}", file=sys.stderr)
-        sys.exit(2)
+        core.shutdown_pool()
+        os._exit(2)
     except Exception:
         traceback.print_exc()
         print(f"INFRASTRUCTURE FAILURE ({a.prop}): harness exception", file=sys.stderr)
-        sys.exit(2)
+        core.shutdown_pool()
+        os._exit(2)
     sys.stdout.flush()
+    sys.stderr.flush()
+    core.shutdown_pool()
     os._exit(rc)
 
 
